@@ -361,12 +361,56 @@ func (ts *TunnelSet) collides(t *Tunnel) (bool, string) {
 	return false, ""
 }
 
+// collisionOnPath reports whether two OTHER tunnels share a stream id, over
+// different links, at an agent that tunnel t passes through (its ingress and
+// exit included): the overwritten index entry of one of them makes its frames
+// fall through to whatever else that agent keeps under the same number, which
+// can be t (e.g. an open acknowledgement completing t's pending open).
+func (ts *TunnelSet) collisionOnPath(t *Tunnel) (bool, string) {
+	on := map[string]bool{ts.m.Nodes[t.Ingress].Name: true, ts.m.Nodes[t.Exit].Name: true}
+	for _, h := range t.hops {
+		on[h.From], on[h.To] = true, true
+	}
+	for i, a := range ts.T {
+		for _, b := range ts.T[i+1:] {
+			if a == t || b == t {
+				continue
+			}
+			for _, h1 := range a.hops {
+				for _, h2 := range b.hops {
+					if h1.ID != h2.ID || h1.Link == h2.Link {
+						continue
+					}
+					for _, ag := range []string{h1.From, h1.To} {
+						if (ag == h2.From || ag == h2.To) && on[ag] {
+							return true, fmt.Sprintf("tunnels %d and %d share id %d at %s", a.ID, b.ID, h1.ID, ag)
+						}
+					}
+				}
+			}
+		}
+	}
+	return false, ""
+}
+
 func (ts *TunnelSet) fail(t *Tunnel, class, sig, detail string) {
+	if c, where := ts.collisionOnPath(t); c {
+		if c2, _ := ts.collides(t); !c2 {
+			simrt.Probe("tunnel_failure_beside_stream_id_collision")
+			simrt.Failf("stream-id-collision", "tunnel disturbed while two other tunnels shared a stream id at an agent on its path ("+t.Kind+")", "%s [%s] tunnel %d %s->%s: %s (%s)", class, where, t.ID, ts.m.Nodes[t.Ingress].Name, ts.m.Nodes[t.Exit].Name, detail, sig)
+		}
+	}
 	if c, where := ts.collides(t); c {
 		simrt.Probe("tunnel_failure_with_stream_id_collision")
 		simrt.Failf("stream-id-collision", "tunnel disturbed while sharing a stream id with another tunnel at one agent ("+t.Kind+")", "%s [%s] tunnel %d %s->%s: %s (%s)", class, where, t.ID, ts.m.Nodes[t.Ingress].Name, ts.m.Nodes[t.Exit].Name, detail, sig)
 	}
-	simrt.Failf(class, sig, "tunnel %d (%s) %s->%s hops=%v: %s", t.ID, t.Kind, ts.m.Nodes[t.Ingress].Name, ts.m.Nodes[t.Exit].Name, t.hops, detail)
+	others := ""
+	for _, o := range ts.T {
+		if o != t && len(o.hops) > 0 {
+			others += fmt.Sprintf(" t%d(%s)%v", o.ID, o.Kind, o.hops)
+		}
+	}
+	simrt.Failf(class, sig, "tunnel %d (%s) %s->%s hops=%v: %s [other tunnels:%s]", t.ID, t.Kind, ts.m.Nodes[t.Ingress].Name, ts.m.Nodes[t.Exit].Name, t.hops, detail, others)
 }
 
 func (ts *TunnelSet) misdelivery(t *Tunnel, where string, off int, got []byte) {
